@@ -810,95 +810,113 @@ def _delegation(ctx, rep, model):
 
 
 # --------------------------------------------------------------------------
-# R4b power-space broadcasting
+# R4b power-space broadcasting, evaluated: every generated dunder is built
+# by interpreting _broadcast_arithmetic(name) and applied to a power-space
+# element and an operand of the base space - a fresh element, and each of
+# the parts of the element itself (the operand of an in-place form is then
+# a part of the output)
 def _broadcast(ctx, rep):
+    from ..srcmodel import Model
+    from ..spacemodel import (SMInterp, SMHooks, NSpace, NPSpace, NElem,
+                              NPElem, sym_elem, flat)
+    from ..symex import Func
+    from .. import posalg as PA
+    from .c05b import witness
+    WIT = [witness(21), witness(22)]
+    model = Model(ctx)
     tree = ctx.tree(PSPACE)
     fn = ctx.func(PSPACE, '_broadcast_arithmetic')
-    cons = '_broadcast_arithmetic'
-    inner = [s for s in fn.body if isinstance(s, ast.FunctionDef)]
-    if len(inner) != 1:
-        rep.undecided('R4b', cons, 'no single inner function', PSPACE,
-                      fn.lineno)
-        return
-    impl = inner[0]
-    opname = fn.args.args[0].arg
-    selfn, othern = [a.arg for a in impl.args.args][:2]
-    probs = []
-    # the installing loop: names are '__{modifier}{op}__'
-    installed = []
+    if fn is None:
+        raise AnalysisError('anchor vanished: _broadcast_arithmetic')
+    # the names installed on ProductSpaceElement: evaluated from the
+    # installing loop (two nested loops over literal lists and a format)
+    names = []
     for s in tree.body:
-        if isinstance(s, ast.For):
-            for c in ast.walk(s):
-                if isinstance(c, ast.Call) and ast.unparse(c.func) == \
-                        'setattr' and len(c.args) == 3 and \
-                        'ProductSpaceElement' in ast.unparse(c.args[0]):
-                    installed.append((s, c))
-    if not installed:
-        rep.undecided('R4b', cons, 'installing loop not found', PSPACE,
-                      fn.lineno)
-        return
-    loop, call = installed[0]
-    # name passed to the factory must be the installed name
-    a1, a2 = call.args[1], call.args[2]
-    if not (isinstance(a2, ast.Call) and ast.unparse(a2.func) ==
-            '_broadcast_arithmetic' and len(a2.args) == 1
-            and ast.unparse(a2.args[0]) == ast.unparse(a1)):
-        probs.append('the dunder installed under %s is built for %s'
-                     % (ast.unparse(a1), ast.unparse(a2)))
-    # body: power-space arm applies getattr(xi, op)(other) to every part
-    ifs = [s for s in impl.body if isinstance(s, ast.If)]
-    if len(ifs) != 1:
-        probs.append('unexpected shape of the implementation')
-    else:
-        st = ifs[0]
-        test = ast.unparse(st.test)
-        if 'is_power_space' not in test or '%s in %s.space[0]' % (
-                othern, selfn) not in test:
-            probs.append('broadcast guard is `%s`' % test)
-        loops = [s for s in st.body if isinstance(s, ast.For)]
-        if len(loops) != 1 or ast.unparse(loops[0].iter) not in (
-                selfn, selfn + '.parts'):
-            probs.append('power-space arm does not iterate over all parts '
-                         'of self')
-        else:
-            lp = loops[0]
-            xi = lp.target.id
-            calls = [c for c in ast.walk(lp) if isinstance(c, ast.Call)
-                     and isinstance(c.func, ast.Call)
-                     and ast.unparse(c.func.func) == 'getattr']
-            if len(calls) != 1:
-                probs.append('no getattr(part, op)(other) call')
+        if isinstance(s, ast.For) and any(
+                isinstance(c, ast.Call) and ast.unparse(c.func) == 'setattr'
+                and 'ProductSpaceElement' in ast.unparse(c.args[0])
+                for c in ast.walk(s)):
+            I = SMInterp(model, {}, SMHooks())
+            rec = []
+
+            class H(SMHooks):
+                def on_name(self, interp, name):
+                    if name == 'setattr':
+                        return Builtin('setattr', lambda o, n, f: rec.append(
+                            (n, f)))
+                    return SMHooks.on_name(self, interp, name)
+            I = SMInterp(model, {}, H())
+            from ..symex import _Scope as Scope
+            try:
+                I.exec_block([s], Scope(I.env_of(PSPACE)), None)
+            except Exception as e:          # noqa
+                rep.undecided('R4b', '_broadcast_arithmetic', 'installing '
+                              'loop: %s' % e, PSPACE, s.lineno)
+                return
+            names = rec
+    rep.floor('R4b', 'generated broadcasting dunders', len(names), 15)
+    ops = {'add': lambda a, b: a + b, 'sub': lambda a, b: a - b,
+           'mul': lambda a, b: a * b, 'div': lambda a, b: a / b,
+           'truediv': lambda a, b: a / b}
+    n = 0
+    for name, impl in names:
+        core = name.strip('_')
+        kind = ''
+        for k in ('i', 'r'):
+            if core.startswith(k) and core[1:] in ops:
+                kind, core = k, core[1:]
+        if core not in ops:
+            rep.undecided('R4b', name, 'unknown generated dunder', PSPACE,
+                          fn.lineno)
+            continue
+        f = ops[core]
+        for which in ('fresh', 'part 0', 'part 1'):
+            cons = 'ProductSpaceElement.%s[operand: %s]' % (name, which)
+            n += 1
+            try:
+                I = SMInterp(model, {}, SMHooks())
+                X = NSpace((2,), 'float64', Rat.var('w'))
+                P = NPSpace([X, X], None)
+                x = sym_elem(P, 'x')
+                old = [list(flat(p)) for p in x.parts]
+                other = sym_elem(X, 'y') if which == 'fresh' else \
+                    x.parts[int(which[-1])]
+                oold = list(flat(other))
+                r = I.call(impl, [x, other], {})
+            except (Undecided, PyRaise) as e:
+                rep.undecided('R4b', cons, str(e), PSPACE, fn.lineno)
+                continue
+            probs = []
+            if not isinstance(r, NPElem) or len(r.parts) != 2:
+                probs.append('returns %r' % (r,))
             else:
-                c = calls[0]
-                ga = [ast.unparse(a) for a in c.func.args]
-                if ga != [xi, opname]:
-                    probs.append('applies getattr(%s) to the parts, expected'
-                                 ' getattr(%s, %s)' % (', '.join(ga), xi,
-                                                       opname))
-                if [ast.unparse(a) for a in c.args] != [othern]:
-                    probs.append('part dunder is called with %s, expected %s'
-                                 % ([ast.unparse(a) for a in c.args],
-                                    othern))
-            src = ast.unparse(st.body)
-            if 'NotImplemented' not in src:
-                probs.append('NotImplemented from a part is not propagated')
-            rets = [r for r in ast.walk(ast.Module(body=st.body,
-                                                   type_ignores=[]))
-                    if isinstance(r, ast.Return)]
-            if not any(ast.unparse(r.value).startswith(
-                    '%s.space.element(' % selfn) for r in rets):
-                probs.append('results are not wrapped with '
-                             'self.space.element(results)')
-        # fallback arm
-        rets = [r for r in ast.walk(ast.Module(body=st.orelse,
-                                               type_ignores=[]))
-                if isinstance(r, ast.Return)]
-        want = 'getattr(LinearSpaceElement, %s)(%s, %s)' % (opname, selfn,
-                                                            othern)
-        if len(rets) != 1 or ast.unparse(rets[0].value) != want:
-            probs.append('fallback arm is not %s' % want)
-    if probs:
-        rep.violation('R4b', cons, '; '.join(probs), PSPACE, impl.lineno)
-    else:
-        rep.holds('R4b', cons, 'same-named dunder applied to every part with'
-                  ' the same operand; fallback to LinearSpaceElement')
+                for i, part in enumerate(r.parts):
+                    for k, g in enumerate(flat(part)):
+                        a, b = old[i][k], oold[k]
+                        want = f(b, a) if kind == 'r' else f(a, b)
+                        if not PA.same(g, want, WIT):
+                            probs.append(
+                                'part %d entry %d is %r, entry-wise result '
+                                '%r' % (i, k, g, want))
+                            break
+                    if probs:
+                        break
+                if kind == 'i':
+                    if not (r is x or all(p is q for p, q in zip(
+                            r.parts, x.parts))):
+                        probs.append('the in-place form does not return '
+                                     'the element (or its parts)')
+                else:
+                    if any(not PA.same(g, o, WIT) for p, op_ in zip(
+                            x.parts, old) for g, o in zip(flat(p), op_)):
+                        probs.append('the element is modified')
+                if which == 'fresh' and any(
+                        not PA.same(g, o, WIT)
+                        for g, o in zip(flat(other), oold)):
+                    probs.append('the operand is modified')
+            if probs:
+                rep.violation('R4b', cons, '; '.join(probs[:2]), PSPACE,
+                              fn.lineno)
+            else:
+                rep.holds('R4b', cons, 'entry-wise result in every part')
+    rep.floor('R4b', 'broadcast evaluations', n, 45)
